@@ -256,7 +256,7 @@ RECURSIVE InsertAll(_, _, _)
 InsertAll(hy, es, i) == IF i > Len(es) THEN hy ELSE InsertAll(InsertException(hy, es[i]), es, i + 1)
 \* insert_exceptions: `.lines().map(trim).filter(non-empty)`; repaired: split_whitespace
 InsertExceptions(hy, text) ==
-  InsertAll(hy, ExcEntries(IF Fix THEN {} ELSE {"ExceptionsSplitOnLinesOnly"}, text), 1)
+  InsertAll(hy, ExcEntries({}, text), 1)    \* (split on white space since the repository fix f96fda3)
 
 ApplyCall(hy, c) == IF c.k = "p" THEN LoadPatterns(hy, c.t)
                     ELSE IF c.k = "e" THEN InsertException(hy, c.t)
